@@ -208,6 +208,21 @@ def judge(oracle, params, n, bits, memo, variant=0):
             elif cb != toks:
                 msg = "callback mode %r differs from generator mode %r" % (
                     [(s, e) for _, s, e in cb], se)
+        if msg is None and variant in (3, 4, 5, 6):
+            # frames that are falsy objects are frames like any other: same hand-over points, one end-of-stream request
+            frames2, val2 = falsy_frames(flags, variant)
+            tok2 = _auditok()["ST"](val2, mn, mx, ms, im, is_, mode)
+            src2 = Src(frames2, tok2)
+            try:
+                hand2 = [(s, e, src2.i, src2.nones) for _, s, e in tok2.tokenize(src2, generator=True)]
+                if src2.nones != 1 or src2.i != n:
+                    msg = "falsy frames (kind %d): end of stream requested %d times, %d of %d frames read" % (variant, src2.nones, src2.i, n)
+                else:
+                    m3 = tm.check_c08_timing(flags, hand2, mx, ms)
+                    if m3:
+                        msg = "falsy frames (kind %d): %s" % (variant, m3)
+            except Exception as exc:
+                msg = "falsy frames (kind %d): tokenizer raised %r" % (variant, exc)
         if msg is None and memo is not None:
             fh = [(s, e, r, z) for _, s, e, r, z in hand]
             for k in range(n):
@@ -365,6 +380,8 @@ def work_enum(task):
                     variant = (idx % 8)  # 0: tuple frames only, 1: +string, 2: +PCM, 3..6: +falsy / zero-length frames, 7: scripted validator
                 elif oracle == "C04":
                     variant = 3 + (idx % 5) if idx % 2 else 0
+                elif oracle == "C08":
+                    variant = 3 + (idx % 4) if idx % 3 == 0 else 0  # every third case also with falsy / zero-length frames
                 msg, nontrivial, se = judge(oracle, params, n, bits, memo, variant)
                 cov["evaluations"] += 1
                 cov["traces_validated_against_impl"] += 1
@@ -1028,6 +1045,9 @@ def replay(case):
         for k in range(n):
             judge("C08", params, k, bits & ((1 << k) - 1), memo)
     msg, _, _ = judge(case["oracle"], params, n, bits, memo, variant=0)
+    if msg is None and case["oracle"] == "C08":
+        for v in (3, 4, 5, 6):
+            msg = msg or judge("C08", params, n, bits, None, variant=v)[0]
     if msg is None and case["oracle"] == "C01":
         for v in (1, 2, 3, 4, 5, 6, 7):
             msg = msg or judge("C01", params, n, bits, None, variant=v)[0]
